@@ -181,6 +181,74 @@ Example c38_pem_premises_satisfiable :
   (forall c : N, (fun b => match b with [n] => Some n | _ => None end) ((fun c => [c]) c) = Some c).
 Proof. reflexivity. Qed.
 
+(* ---- Stats payloads (every member, not only Type / Kind / enums) ----
+   The JSON shape of each Stats type is the table Gen/GoStats.v, regenerated
+   from the struct definitions of stats.go by tools/statsgen on every run;
+   Model/SerialStats.v codes any such shape the way encoding/json does.
+   Assumed contract of encoding/json + strconv on primitives (the two
+   premises): the literal written for an integer, resp. for a finite float64
+   (F is the type of finite float64 values), parses back to it.  Strings and
+   booleans are carried by the tree (text layer, c38_json_text_partial);
+   omitempty is modelled, not assumed.
+   Domain: [has_type] (integers within their width, enum members within the
+   const block, maps as key-sorted lists), [own_tag] (the type's own tag, and
+   the kind the dispatch needs).  Guard [lossless]: (a) no enum member at an
+   Unknown constant its decoder rejects; (b) no omitempty member that is empty
+   but not the zero value; (c) no pointer to a value that prints as null.
+   (b) and (c) are losses of encoding/json itself that no Stats type of
+   stats.go can exhibit today (omitempty sits on strings and on one pointer to
+   a struct); (a) is the recorded ICECandidateType finding. *)
+From Verif Require Import Model.SerialShape Model.SerialStats.
+From Verif Require Proofs.SerialStats.
+Theorem c38_stats_roundtrip :
+  forall (num F : Type) (num_of_int : Z -> num) (num_of_flt : F -> num)
+         (int_of_num : num -> option Z) (flt_of_num : num -> option F)
+         (fzero : F) (fis_zero : F -> bool),
+  (forall z, int_of_num (num_of_int z) = Some z) ->
+  (forall f, flt_of_num (num_of_flt f) = Some f) ->
+  forall t v,
+    has_type F (stats_fty t) v -> own_tag F t v ->
+    lossless F fzero fis_zero (stats_fty t) v ->
+    exists j, marshal_stats num F num_of_int num_of_flt fis_zero t v = Ok j /\
+              unmarshal_stats num F int_of_num flt_of_num fzero j = Ok (t, v).
+Proof. exact SerialStats.stats_payload_roundtrip. Qed.
+Print Assumptions c38_stats_roundtrip.
+
+(* the same for any struct shape whose member names are distinct up to case
+   (SessionDescription and ICECandidateInit are instances) *)
+Theorem c38_struct_roundtrip :
+  forall (num F : Type) (num_of_int : Z -> num) (num_of_flt : F -> num)
+         (int_of_num : num -> option Z) (flt_of_num : num -> option F)
+         (fzero : F) (fis_zero : F -> bool),
+  (forall z, int_of_num (num_of_int z) = Some z) ->
+  (forall f, flt_of_num (num_of_flt f) = Some f) ->
+  forall t v,
+    SerialStats.wf_ty t = true -> has_type F t v -> lossless F fzero fis_zero t v ->
+    exists j, marshal num F num_of_int num_of_flt fis_zero t v = Ok j /\
+              unmarshal num F int_of_num flt_of_num fzero t j = Ok v.
+Proof. exact SerialStats.marshal_unmarshal. Qed.
+Print Assumptions c38_struct_roundtrip.
+
+(* the guard cannot be dropped: ICECandidateStats{Type: "remote-candidate"}
+   (CandidateType 0) is in the domain, is excluded by the guard, and fails *)
+Theorem c38_stats_roundtrip_refuted :
+  has_type Z (stats_fty ICECandidateStats) SerialStats.cand0 /\
+  own_tag Z ICECandidateStats SerialStats.cand0 /\
+  ~ lossless Z c_fzero c_fis_zero (stats_fty ICECandidateStats) SerialStats.cand0 /\
+  c_stats_roundtrip ICECandidateStats SerialStats.cand0 = Err "unknown-candidate-type".
+Proof.
+  exact (conj SerialStats.cand0_typed (conj SerialStats.cand0_own
+          (conj SerialStats.cand0_excluded SerialStats.cand0_fails))).
+Qed.
+Print Assumptions c38_stats_roundtrip_refuted.
+
+(* every generated Stats shape is well formed and has the members the
+   dispatch reads *)
+Theorem c38_stats_table_checked :
+  forallb SerialStats.stats_table_ok all_stats_ty = true.
+Proof. exact SerialStats.stats_table_checked. Qed.
+Print Assumptions c38_stats_table_checked.
+
 (* ---- second tie to the source: the translated enum tables ----
    Gen/GoSerial.v is regenerated by tools/go2coq before every run of this
    check from the enum files themselves: every String() method and every
